@@ -60,7 +60,7 @@ func coinsStr(cs sdk.Coins) string {
 		return "-"
 	}
 	parts := []string{}
-	for _, c := range cs {
+	for _, c := range cs.Sort() {
 		parts = append(parts, c.Denom+":"+c.Amount.String())
 	}
 	return strings.Join(parts, ",")
